@@ -1624,8 +1624,10 @@ package rapid
 //@   trusted "reflection-based constructor of a composite generator: outside the modelled subset"
 //@ func genAnyStruct
 //@   trusted "reflection-based constructor of a composite generator: outside the modelled subset"
+// Deferred keeps the constructor function it is given and builds nothing yet: the generator is made by the first value() (under the Once)
 //@ func Deferred
-//@   trusted "constructor: allocates a deferredGen around fn"
+//@   at newGenerator#0 assert [C15] boxed0.fn == fn && boxed0.g == nil
+//@   ensures [C15] fresh(result)
 
 // ---------------------------------------------------------------------------------------------
 // The shrink passes (C01, C05). accept is the gate: whatever candidate a pass builds, it becomes the current best only
